@@ -269,3 +269,118 @@ pub(crate) fn run_c04(_replay: Option<&str>) -> Report {
     rep.machinery_error = take_machinery();
     rep
 }
+
+/// C07, driver: a connection collision between two LIVE sessions of one neighbour (the daemon's
+/// active and passive connection, both in the OPEN exchange): exactly the connection RFC 4271 6.8
+/// names survives; the other one is sent Cease / connection collision resolution and closed.
+pub(crate) fn run_c07(_replay: Option<&str>) -> Report {
+    let mut rep = Report::new("C07", "hd-c07live");
+    rep.rule = "two live sessions (daemon roles active and passive) of one neighbour over loopback TCP; the neighbour's OPEN is sent on one, then on the other (both orders), with its BGP identifier below / above the daemon's; the loser must receive NOTIFICATION 6/7 and end-of-stream, the survivor a KEEPALIVE and nothing else, and it must reach Established after the neighbour's KEEPALIVE".into();
+    let rt = runtime();
+    let local_id = u32::from(Ipv4Addr::new(10, 0, 0, 254));
+    for remote_bigger in [false, true] {
+        for first_active in [false, true] {
+            let remote_id = if remote_bigger { local_id + 1 } else { local_id - 1 };
+            let case = format!("collision#{}#{}", if remote_bigger { "remote-id-above" } else { "remote-id-below" }, if first_active { "open-on-active-first" } else { "open-on-passive-first" });
+            let r: Result<Vec<String>, String> = rt.block_on(async {
+                use crate::fsm::Role::{Active, Passive};
+                let addr = IpAddr::V4(Ipv4Addr::new(127, 0, 8, 212));
+                let d = Daemon::new(1);
+                add_simple_peer(&d, addr, 90, 65001).await?;
+                let (r1, r2) = if first_active { (Active, Passive) } else { (Passive, Active) };
+                let mut c1 = connect(&d, addr, r1).await?.ok_or("first connection refused")?;
+                let mut c2 = connect(&d, addr, r2).await?.ok_or("second connection refused")?;
+                let caps = vec![packet::Capability::MultiProtocol(Family::IPV4), packet::Capability::FourOctetAsNumber(65001)];
+                let my_open = bgp::Message::Open(bgp::Open { as_number: 65001, holdtime: HoldTime::new(90).ok_or("hold")?, router_id: remote_id, capability: caps });
+                for c in [&mut c1, &mut c2] {
+                    match c.read_msg().await? {
+                        Some(bgp::ParsedMessage::Open(_)) => {}
+                        _ => return Err("a connection did not start with the daemon's OPEN".into()),
+                    }
+                }
+                if !c1.send(&my_open).await {
+                    return Err("could not send OPEN on the first connection".into());
+                }
+                match c1.read_msg().await? {
+                    Some(bgp::ParsedMessage::Keepalive) => {}
+                    other => return Err(format!("first connection: expected the daemon's KEEPALIVE, got {}", if other.is_some() { "another message" } else { "end of stream" })),
+                }
+                if !c2.send(&my_open).await {
+                    return Err("could not send OPEN on the second connection".into());
+                }
+                // RFC 4271 6.8: local id < remote id -> the connection the REMOTE initiated (daemon role passive) survives
+                let survivor_role = if local_id < remote_id { Passive } else { Active };
+                let (mut win, mut lose, win_is_first) = if r1 == survivor_role { (c1, c2, true) } else { (c2, c1, false) };
+                let mut vs = Vec::new();
+                // the loser: NOTIFICATION 6/7, then end of stream
+                let mut got_cease = false;
+                let mut closed = false;
+                for _ in 0..4 {
+                    match tokio::time::timeout(Duration::from_secs(3), lose.read_msg()).await {
+                        Ok(Ok(Some(bgp::ParsedMessage::Notification(n)))) => {
+                            if n.notification_code() == 6 && n.notification_subcode() == 7 {
+                                got_cease = true;
+                            } else {
+                                vs.push(format!("loser-wrong-notification: the losing connection got NOTIFICATION {}/{}", n.notification_code(), n.notification_subcode()));
+                            }
+                        }
+                        Ok(Ok(Some(_))) => {}
+                        Ok(Ok(None)) => {
+                            closed = true;
+                            break;
+                        }
+                        Ok(Err(e)) => return Err(e),
+                        Err(_) => break,
+                    }
+                }
+                if !got_cease {
+                    vs.push("loser-no-cease: the connection that loses the collision was not sent Cease / connection collision resolution".into());
+                }
+                if !closed {
+                    vs.push("loser-not-closed: the connection that loses the collision is still open 3 s later".into());
+                }
+                // the survivor: its KEEPALIVE (if it was the second to get our OPEN), then Established on our KEEPALIVE
+                if !win_is_first {
+                    match tokio::time::timeout(Duration::from_secs(3), win.read_msg()).await {
+                        Ok(Ok(Some(bgp::ParsedMessage::Keepalive))) => {}
+                        Ok(Ok(Some(bgp::ParsedMessage::Notification(n)))) => vs.push(format!("wrong-survivor: the connection RFC 4271 6.8 keeps got NOTIFICATION {}/{}", n.notification_code(), n.notification_subcode())),
+                        Ok(Ok(None)) => vs.push("wrong-survivor: the connection RFC 4271 6.8 keeps was closed".into()),
+                        _ => vs.push("survivor-stuck: the surviving connection did not answer the OPEN with a KEEPALIVE".into()),
+                    }
+                }
+                if vs.iter().all(|v| !v.starts_with("wrong-survivor")) {
+                    if !(win.send(&bgp::Message::Keepalive).await && win.barrier().await) {
+                        vs.push("survivor-disturbed: the surviving connection ended after the collision was resolved".into());
+                    } else {
+                        let st = arbiter_view(&d, addr).await;
+                        let est = st.map(|(a, p, _, _)| if survivor_role == Active { a } else { p });
+                        if est != Some(crate::fsm::State::Established) {
+                            vs.push(format!("survivor-not-established: after the neighbour's KEEPALIVE the surviving connection is in {:?}", est));
+                        }
+                    }
+                }
+                win.wait_end(true).await;
+                lose.wait_end(true).await;
+                Ok(vs)
+            });
+            rep.evaluations += 1;
+            match r {
+                Err(e) => {
+                    rep.machinery_error = Some(format!("c07 live collision ({case}): {e}"));
+                    return rep;
+                }
+                Ok(vs) => {
+                    for msg in vs {
+                        let clause = msg.split(':').next().unwrap_or("").to_string();
+                        rep.violation(Violation { sig: format!("C07/live-collision/{clause}"), what: format!("{case}: {msg}"), case: case.clone() });
+                    }
+                }
+            }
+        }
+    }
+    rep.exhaustive = true;
+    if rep.machinery_error.is_none() {
+        rep.machinery_error = take_machinery();
+    }
+    rep
+}
